@@ -3,9 +3,9 @@
 import json
 import engine as E
 
-SURFS = ["rtp", "udp", "ps", "psq", "rtsp", "sdp", "ws", "http", "client"]
-QUICK_CAP = {"rtp": 2600, "udp": 3000, "ps": 6000, "psq": 3000, "rtsp": 2200, "sdp": 1300, "ws": 1200, "http": 2000, "client": 1200}
-THOROUGH_CAP = {"rtp": 30000, "udp": 25000, "ps": 60000, "psq": 30000, "rtsp": 30000, "sdp": 12000, "ws": 12000, "http": 50000, "client": 10000}
+SURFS = ["rtp", "udp", "ps", "psq", "pst", "rtsp", "sdp", "ws", "http", "client"]
+QUICK_CAP = {"rtp": 2600, "udp": 3000, "ps": 6000, "psq": 3000, "pst": 3000, "rtsp": 2200, "sdp": 1300, "ws": 1200, "http": 2000, "client": 1200}
+THOROUGH_CAP = {"rtp": 30000, "udp": 25000, "ps": 60000, "psq": 30000, "pst": 30000, "rtsp": 30000, "sdp": 12000, "ws": 12000, "http": 50000, "client": 10000}
 GOOD_SDP = {"shape": "ok", "v": "avc", "vr": "ok", "vf": "ok", "a": "aac", "ar": "ok", "af": "ok", "ctl": "ok"}
 
 
@@ -65,7 +65,10 @@ def run(ctx):
     ctx.cov["per_surface_enumerated_executed"] = per
     ctx.cov["rule"] = ("per surface (rtp: RTP/RTCP datagrams of an interleaved RTSP publisher, with/without a key-frame-waiting "
                        "subscriber, SDP clock rate classes; udp: UDP-transport publisher, tracks set up x payload type x SR SSRC; "
-                       "ps: GB28181 PS elements in RTP; psq: GB28181 RTP sequencing incl. fill-to-limit; rtsp: commands + interleaved "
+                       "ps: GB28181 PS elements in RTP; psq: GB28181 RTP sequencing incl. fill-to-limit; pst: GB28181 over TCP through the "
+                       "real PubSession of start_rtp_pub(is_tcp_flag=1) - frame lengths 0/1/11/short/65535, PS + RTP header classes in "
+                       "exact frames, write cuts, further / silent / closing connections, handover under load, kick / second start / "
+                       "timeout tick, x connection state before x timeout; rtsp: commands + interleaved "
                        "frames; sdp: SDP class records; ws: RTSP over WebSocket frames; http: HTTP-API / HTTP-FLV / HTTP-TS / HLS "
                        "requests; client: what an upstream sends to lal's RTMP pull/push, RTSP pull, HTTP-FLV pull sessions): all "
                        "element sequences core* . element to the depth of the tier enumerated by TLC; single elements (and SDP "
@@ -105,6 +108,8 @@ def run(ctx):
                         "WebSocket, HTTP requests, API JSON, RTMP / RTSP / FLV upstream elements)",
                         "RTSP sessions run on in-memory connections (what rtsp.Server / WebsocketServer do per accepted connection), "
                         "UDP-transport publishers get real loopback datagrams; PS packets are fed to gb28181.PsUnpacker wired like "
-                        "Group.StartRtpPub; HTTP handlers sit behind real net/http servers on loopback; client sessions dial a "
-                        "scripted loopback upstream; TLS and the GB28181 TCP framing are not driven",
+                        "Group.StartRtpPub, and (pst) sent as 2-byte-length frames over real loopback TCP connections to the listener of the "
+                        "PubSession that ServerManager.CtrlStartRtpPub starts (a session that ended must have released its port, let "
+                        "the stream name be started again, left no reader goroutine and a group that the next tick removes); HTTP handlers sit behind real net/http servers on loopback; client sessions dial a "
+                        "scripted loopback upstream; TLS is not driven",
                         "log assert_behavior at the shipped default"]
